@@ -47,8 +47,8 @@ var Exprs = []Expr{
 	{Re: `\w{1,3}`, Members: []string{"a", "a_1"}, Non: []string{"", "abcd"}},
 	{Re: `(ab)*`, Members: []string{"", "ab", "abab"}, Non: []string{"a", "aba"}, Groups: true},
 	{Re: `[0-9]+(-[0-9]+)?`, Members: []string{"1", "10-20"}, Non: []string{"-", "1-"}, Groups: true},
-	{Re: `[a-z(]+`, Members: []string{"a(", "q"}, Non: []string{"", ")"}},
-	{Re: `[a-z()]+`, Members: []string{"f(x)", "ab"}, Non: []string{"", "1"}},
+	{Re: `[a-z(]+`, Members: []string{"a(", "q"}, Non: []string{"", ")", "a:b", "a?"}},
+	{Re: `[a-z()]+`, Members: []string{"f(x)", "ab"}, Non: []string{"", "1", "a:b", "f?x"}},
 	{Re: `([0-9]+)(px|em)`, Members: []string{"120px", "3em"}, Non: []string{"px", "12"}, Groups: true},
 }
 
@@ -96,6 +96,8 @@ var Values = []string{
 	"%2541", "%252F", "a%2525", "%25zz", "a%20b+c", "%2B+", "1+1%3D2", "c++", "+", "%2b%2B", "a;b", "a,b=c", "k=v&x", "caf\xe9", "\xff\xfe", "010", "a.", "a..",
 	// digits that are not ASCII digits (fullwidth, Arabic-Indic): [0-9] and \d do not admit them
 	"\uff11\uff12", "\u0661\u0662\u0663", "4\u0665",
+	// characters that mean something in an expression, next to letters a class like [a-z()] admits
+	"a:b", "a?b", "(a)", "a|b", "a)b(",
 }
 
 // RouteOpts tunes the derivation generator.
